@@ -111,6 +111,8 @@ trait Cam<T> {
     fn conv(&self, pk: &str, x: [T; 3]) -> ConvOut<T>;
     fn full(&self, x: [T; 3]) -> [T; 6];
     fn jmh(&self, x: [T; 3]) -> [T; 3];
+    /// a partial colour given directly: its expansion to the full colour and its way back to XYZ
+    fn pfin(&self, pk: &str, p: [T; 3]) -> ([T; 6], [T; 3]);
 }
 
 macro_rules! partial {
@@ -144,6 +146,19 @@ macro_rules! impl_cam {
                 let xyz: Xyz<$Wp, $T> = Xyz::new(x[0], x[1], x[2]);
                 let c = Cam16Jmh::<$T>::from_xyz(xyz, *self);
                 [c.lightness, c.colorfulness, c.hue.into_raw_degrees()]
+            }
+            fn pfin(&self, pk: &str, p: [$T; 3]) -> ([$T; 6], [$T; 3]) {
+                macro_rules! one { ($P:ident) => {{
+                    let c = $P::<$T>::new(p[0], p[1], p[2]);
+                    let f: Cam16<$T> = c.into_full(*self);
+                    let x: Xyz<$Wp, $T> = c.into_xyz(*self);
+                    (full6(f), [x.x, x.y, x.z])
+                }}; }
+                match pk {
+                    "jch" => one!(Cam16Jch), "jmh" => one!(Cam16Jmh), "jsh" => one!(Cam16Jsh),
+                    "qch" => one!(Cam16Qch), "qmh" => one!(Cam16Qmh), "qsh" => one!(Cam16Qsh),
+                    o => panic!("harness: unknown partial kind {}", o),
+                }
             }
             fn conv(&self, pk: &str, x: [$T; 3]) -> ConvOut<$T> {
                 let xyz: Xyz<$Wp, $T> = Xyz::new(x[0], x[1], x[2]);
@@ -296,6 +311,22 @@ macro_rules! typed_events {
         }
     };
 }
+macro_rules! typed_pfin {
+    ($T:ty, $make:ident, $pfin:ident) => {
+        fn $pfin(pv: &Pv, pk: &str, p: [f64; 3]) -> Value {
+            let q = [p[0] as $T, p[1] as $T, p[2] as $T];
+            let base = json!({"ev": "pfin", "t": <$T as Ex>::NAME, "params": pv.id, "pk": pk, "p": ex_arr(&q), "pv": pv.describe(), "pj": pv.to_json()});
+            let mut o = base.as_object().unwrap().clone();
+            match catch(|| $make(pv).pfin(pk, q)) {
+                Ok((f, x)) => { o.insert("panic".into(), json!(0)); o.insert("full".into(), ex_arr(&f)); o.insert("xyz".into(), ex_arr(&x)); }
+                Err(m) => { o.insert("panic".into(), json!(1)); o.insert("msg".into(), json!(m)); o.insert("full".into(), json!([])); o.insert("xyz".into(), json!([])); }
+            }
+            Value::Object(o)
+        }
+    };
+}
+typed_pfin!(f64, make_f64, pfin_f64);
+typed_pfin!(f32, make_f32, pfin_f32);
 typed_events!(f64, make_f64, conv_f64, pair_f64, jmh_f64);
 typed_events!(f32, make_f32, conv_f32, pair_f32, jmh_f32);
 
@@ -398,6 +429,33 @@ fn main() {
         return;
     }
 
+    if let Some(n) = arg("--pfin") {
+        // the boundary lattice of the partial colours (C07): lightness / brightness and the chroma-like attribute at zero,
+        // a billionth of their usual range, inside and at its end; hues at sector-like positions; n viewing conditions
+        let n: usize = n.parse().unwrap();
+        let mut rng = Sm64::new(seed_from_env() ^ 0xF1);
+        let mut pvs: Vec<Pv> = vec![Pv { id: 1, la: 40.0, yb: 0.2, sur: Sur::Average, disc: Disc::Auto, dynamic: false, white: 0, custom: [0.0, 0.0] },
+                                    Pv { id: 2, la: 4.0, yb: 0.5, sur: Sur::Dim, disc: Disc::Custom(1.0), dynamic: true, white: 1, custom: [0.0, 0.0] },
+                                    Pv { id: 3, la: 0.1, yb: 0.01, sur: Sur::Dark, disc: Disc::Custom(0.0), dynamic: false, white: 2, custom: [0.0, 0.0] }];
+        while pvs.len() < n { let k = pvs.len() as i64; pvs.push(random_pv(&mut rng, 300000 + k)); }
+        let mut rec = Rec::create(&out);
+        for pv in pvs.iter().take(n) {
+            for pk in KINDS {
+                for l in [0.0, 1e-7, 50.0, 100.0] {
+                    // chroma-like attributes up to 30: far beyond (saturation 100 at lightness 50 is a chroma of 400) the published
+                    // inverse has a pole (23 p1 + t (11 cos h + 108 sin h) = 0) and no colour corresponds to the attributes
+                    for c in [0.0, 1e-7, 10.0, 30.0] {
+                        for h in [0.0, 120.0, 359.999, -90.0] {
+                            rec.ev(pfin_f64(pv, pk, [l, c, h]));
+                            rec.ev(pfin_f32(pv, pk, [l, c, h]));
+                        }
+                    }
+                }
+            }
+        }
+        eprintln!("cam16: {} events", rec.finish());
+        return;
+    }
     let seed = seed_from_env();
     let per_case: u64 = arg_or("--per-case", "1").parse().unwrap();
     let n_random: u64 = arg_or("--random", "0").parse().unwrap();
